@@ -7,7 +7,8 @@
     op add <id> <vdim> <tlen> <mcnt> => ok | closed
     op remove <id>                  => ok | notfound | vecnotfound | vecdeleted | closed
     op flush | rotate | evict | trigger => ok | closed
-    op search <vec|txt|md> turns=<t,…|-> loads=<n> => ok <id,…|-> | err <closed|noindex|other>
+    op badadd <vdim> <tlen> <mcnt>  => err | closed      an add the store must reject
+    op search <vec|txt|md|mdg|mdgf> k=<k> turns=<t,…|-> loads=<n> => ok <id,…|-> | err <closed|noindex|other>
          turns: what each segment goroutine did, in the (serialised) order they ran:
          h = cache hit, l<id> = loaded segment <id>, f<id> = ReadFrom of segment <id> failed,
          f = getIndex failed before ReadFrom
@@ -79,8 +80,10 @@ def outName : Out → String
   | .errVecDeleted => "vecdeleted" | .errNoIndex => "noindex" | .notEnabled => "none"
   | .seg _ => "ok"
 
+/-- `mdg` = metadata filter GROUPS alone, `mdgf` = groups + plain filters: the same match set as `md` -/
 def parseQ : String → Option Q
-  | "vec" => some .vec | "txt" => some .txt | "md" => some .md | _ => none
+  | "vec" => some .vec | "txt" => some .txt | "md" => some .md
+  | "mdg" => some .md | "mdgf" => some .md | _ => none
 
 def Doc.has (d : Doc) (tpl : Tpl) : Q → Bool
   | .vec => tpl.vec && decide (0 < d.vdim)
@@ -198,12 +201,22 @@ def mustFind (st : St) (q : Q) : List Doc :=
     !(vis.any fun v => v.id == d.id)
   vis ++ dur
 
-def classifySearch (st : St) (q : Q) (model impl : List Nat) (extra : String) : String :=
+def classifySearch (st : St) (q : Q) (k : Nat) (model impl : List Nat) (extra : String) : String :=
   let acked := st.s.gh.acked.map (·.id)
   let agree := model == impl
   match impl.find? (fun i => !acked.contains i) with
   | some i => s!"SPECFAIL phantom id={i} impl={showIds impl}"
   | none =>
+    -- "k large enough" = k ≥ the number of documents the probe matches (what the model's stores
+    -- hold, and what the property says must be found). Below that only size and membership are judged.
+    let need := ((mustFind st q).map (·.id) ++ model).eraseDups.length
+    if k < need then
+      if impl.length != (if model.length < k then model.length else k) then
+        s!"DIFF search k={k} size model-matches={model.length} impl={showIds impl}"
+      else match impl.find? (fun i => !model.contains i) with
+        | some i => s!"DIFF search k={k} returned id={i} outside the model's matches {showIds model}"
+        | none => s!"ok n={impl.length} ksmall=1 {extra}"
+    else
     let missing := ((mustFind st q).map (·.id)).eraseDups.filter fun i => !impl.contains i
     -- all-or-nothing after a crash: only intact segments and post-recovery adds may contribute
     let allowed : List Nat :=
@@ -238,6 +251,22 @@ def classifySearch (st : St) (q : Q) (model impl : List Nat) (extra : String) : 
         if st.imgDamaged then s!"KNOWN D13-shared-templates leaked={showIds leaked} {extra}"
         else if st.s.gh.compacted then s!"KNOWN D14-compaction-no-merge leaked={showIds leaked} {extra}"
         else s!"SPECFAIL allornone-unexplained leaked={showIds leaked} impl={showIds impl}"
+
+/-- when the trace cannot be replayed (the schedule the implementation reports does not fit the
+    model), the property-level predicates that need no model answer are still evaluated on the
+    implementation's answer: a concrete failing input beats "correspondence broken" -/
+def specOnly (st : St) (q : Q) (k : Nat) (impl : List Nat) : Option String :=
+  let acked := st.s.gh.acked.map (·.id)
+  match impl.find? (fun i => !acked.contains i) with
+  | some i => some s!"SPECFAIL phantom id={i} impl={showIds impl}"
+  | none =>
+    let must := ((mustFind st q).map (·.id)).eraseDups
+    let missing := must.filter fun i => !impl.contains i
+    -- a listed finding explains a failed predicate only when the faithful model reproduces the
+    -- answer; here it cannot even replay the trace, so a failed predicate is a plain failure
+    if !missing.isEmpty && decide (must.length ≤ k) then
+      some s!"SPECFAIL missing ids={showIds missing} impl={showIds impl} (trace not replayable on the model)"
+    else none
 
 /-! ### the op interpreter -/
 
@@ -290,6 +319,20 @@ def op (st : St) (toks : List String) : St × String :=
       if (st.s.gh.acked.any fun d => d.id == id) then (st, "UNSUPPORTED readd") else
       simple st (.add ⟨id, vd, tl, mc⟩) post "add"
     | _, _, _, _ => (st, "BADOP add")
+  | ["badadd", vd, tl, mc] =>
+    -- an Add / AddWithID the store must reject: memtableQueue makes room first (a rotation can
+    -- happen), then hybridSearchIndex.addInternal refuses before touching any sub-index
+    match vd.toNat?, tl.toNat?, mc.toNat? with
+    | some vd, some tl, some mc =>
+      if !running st.s then
+        if post == ["closed"] then (st, "ok badadd=1") else (st, s!"DIFF badadd model=closed impl={post}")
+      else
+        let d : Doc := ⟨0, vd, tl, mc⟩
+        let rot := !hasRoom st.s.cfg.limit st.s.mts d
+        let st' := if rot then (stepV st .rotate).1 else st
+        if post == ["err"] then (st', s!"ok badadd=1 rotated={if rot then 1 else 0}")
+        else (st', s!"SPECFAIL rejected-add: the store acknowledged a document it must refuse impl={post}")
+    | _, _, _ => (st, "BADOP badadd")
   | ["remove", id] =>
     match id.toNat? with
     | some id => simple st (.remove id) post "remove"
@@ -342,9 +385,9 @@ def op (st : St) (toks : List String) : St × String :=
           | none => (st', s!"ok bg={name} {name}=1")
         | .seg id, none => (st', s!"DIFF bg {name} model wrote seg={id} impl={post}")
         | _, _ => (st', s!"ok {name}=1")
-  | ["search", q, turns, loads] =>
-    match parseQ q, kvOf "turns" [turns], kvOf "loads" [loads] with
-    | some q, some turns, some loads =>
+  | ["search", q, kTok, turns, loads] =>
+    match parseQ q, kvOf "turns" [turns], kvOf "loads" [loads], (kvOf "k" [kTok]).bind String.toNat? with
+    | some q, some turns, some loads, some k =>
       let tl := if turns == "-" then [] else turns.splitOn ","
       match post with
       | ["err", e] =>
@@ -357,9 +400,9 @@ def op (st : St) (toks : List String) : St × String :=
         | some implIds =>
           let impl := sortIds implIds
           if tl.length != st.s.segs.length then
-            (st, s!"DIFF search turns={tl.length} model-segments={st.s.segs.length}") else
+            (st, (specOnly st q k impl).getD s!"DIFF search turns={tl.length} model-segments={st.s.segs.length}") else
           match resolveTurns st.cfg st.s tl with
-          | .error e => (st, s!"DIFF search schedule: {e}")
+          | .error e => (st, (specOnly st q k impl).getD s!"DIFF search schedule: {e}")
           | .ok sched =>
             let (s', o, nl) := execSearch st.s q sched
             match o with
@@ -368,12 +411,12 @@ def op (st : St) (toks : List String) : St × String :=
               let st' := { st with s := s' }
               if toString nl != loads then (st', s!"DIFF search loads model={nl} impl={loads}") else
               let nmust := (mustFind st q).length
-              let r := classifySearch { st with s := s' } q model impl
-                s!"must={nmust} segs={tl.length} loads={nl} nonempty={if impl.isEmpty then 0 else 1}"
+              let r := classifySearch { st with s := s' } q k model impl
+                s!"must={nmust} segs={tl.length} loads={nl} nonempty={if impl.isEmpty then 0 else 1} kexact={if k == model.length && model.length > 0 then 1 else 0}"
               (st', r)
             | e => (st, s!"DIFF search model={outName e} impl=ok")
       | _ => (st, "BADOP search outcome")
-    | _, _, _ => (st, "BADOP search args")
+    | _, _, _, _ => (st, "BADOP search args")
   | ["state"] =>
     let m := showState st.s
     let i := " ".intercalate post
